@@ -91,7 +91,7 @@ def main(tier, replay):
         replay_main(c, replay, infos, ['gpair_native.go.tmpl'])
     if jobs:
         jobs.append({'name': 'sens-unrelated-record', 'pkg': jobs[0]['pkg'], 'func': 'HarnessPair', 'args': [2, 1, 1, 0, 1, 1], 'opt': dict(jobs[0]['opt']), 'expect': 'segment equal|same number of writes'})
-    out = run_program_jobs(c, mod, infos, jobs, native_templates=['gpair_native.go.tmpl'])
+    out = run_program_jobs_batched(c, mod, infos, jobs, batch=180, native_templates=['gpair_native.go.tmpl'])
     # decorated programs that do not generate or do not compile: the exclusion had an effect
     load_err = out.get('load_errors') or {}
     for did, bn, prog, what in decs:
